@@ -374,6 +374,35 @@ func (p *pkg) assignsWithConds(fn, recv, lhs string) []string {
 	return out
 }
 
+// definesWithConds: like assignsWithConds for `lhs := rhs`
+func (p *pkg) definesWithConds(fn, recv, lhs string) []string {
+	var out []string
+	walkConds(p.funcDeclRecv(fn, recv).Body, func(m ast.Node, conds []string) {
+		if as, ok := m.(*ast.AssignStmt); ok && len(as.Lhs) == 1 && len(as.Rhs) == 1 && as.Tok == token.DEFINE {
+			if nodeText(as.Lhs[0]) == lhs {
+				out = append(out, lhs+" := "+nodeText(as.Rhs[0])+" | "+strings.Join(conds, " && "))
+			}
+		}
+	})
+	return out
+}
+
+// branchesWithConds: every `continue`/`break` (with its label) in func/method fn of recv, in source order, with
+// the conditions that enclose it
+func (p *pkg) branchesWithConds(fn, recv string, tok token.Token) []string {
+	var out []string
+	walkConds(p.funcDeclRecv(fn, recv).Body, func(m ast.Node, conds []string) {
+		if b, ok := m.(*ast.BranchStmt); ok && b.Tok == tok {
+			t := tok.String()
+			if b.Label != nil {
+				t += " " + b.Label.Name
+			}
+			out = append(out, t+" | "+strings.Join(conds, " && "))
+		}
+	})
+	return out
+}
+
 // fieldExprIn: the source text of the value given to `field:` in a composite literal inside package-level func fn
 func (p *pkg) fieldExprIn(fn, field string) string {
 	res := ""
@@ -1122,6 +1151,16 @@ func main() {
 		l := cmds.callsWithConds("trackCommand", "", "WriteString")
 		facts["trackRewriteInPlace"] = l
 		return "def trackRewriteInPlace : List Bytes := " + bytesList(l)
+	})
+	// ---- commands/command_track.go (C19): which known lines are passed over when track looks for the line that
+	// already supports its argument, and where it stops looking
+	emit("trackKnownSkips", func() string {
+		l := cmds.branchesWithConds("trackCommand", "", token.CONTINUE)
+		l = append(l, cmds.definesWithConds("trackCommand", "", "sameFile")...)
+		l = append(l, cmds.definesWithConds("trackCommand", "", "knownPath")...)
+		l = append(l, cmds.assignsWithConds("trackCommand", "", "exact")...)
+		facts["trackKnownSkips"] = l
+		return "def trackKnownSkips : List Bytes := " + bytesList(l)
 	})
 	// ---- commands/command_merge_driver.go (C01): the inputs of a merge are private copies (a temporary file each,
 	// filled by copying or smudging), never links into local storage; a failed smudge ends the merge
